@@ -355,6 +355,20 @@ def run_oracle(model, cases, verdicts):
     return vlib.run_lines(model, lines, ['oracle'])[1]
 
 
+def gen_queries(rng, ncats):
+    """all (category index, type index) pairs in random order, about a third of them asked again later"""
+    qs = [(ci, ti) for ci in range(ncats) for ti in range(5)]
+    rng.shuffle(qs)
+    for q in list(qs):
+        if rng.random() < 0.35:
+            qs.insert(rng.randint(0, len(qs)), q)
+    return qs
+
+
+def seq_line(rules, cats, queries):
+    return line_of((rules, cats)) + ' ' + ','.join('%d:%d' % q for q in queries)
+
+
 def well_formed(case, v):
     parts = v.split(',')
     return len(parts) == len(case[1]) and all(re.fullmatch('[01]{5}', p) for p in parts)
@@ -498,6 +512,64 @@ def run():
                   'e.g. rules %r category %r: implementation %s model %s' % (len(dis_model), r, c, x, y),
                   {'kind': 'correspondence', 'rules': r, 'category': c, 'implementation_verdicts': x, 'model_verdicts': y})
 
+    # ---- one filter object per rule text, the (category, type) queries in random order with repetitions:
+    # a verdict must not depend on what the object was asked before
+    seq_cases = cases[:n_fixed:7] + cases[n_fixed:]
+    seqs = [gen_queries(rng, len(c[1])) for c in seq_cases]
+    slines = [seq_line(c[0], c[1], q) for c, q in zip(seq_cases, seqs)]
+    rcs, out_s, err_s = vlib.run_lines(impl, slines)
+    out_s = out_s + [''] * (len(slines) - len(out_s))
+    out_s = [v if re.fullmatch('[01]{%d}' % len(q), v) else '?' * len(q) for v, q in zip(out_s, seqs)]
+    marks_s = vlib.run_lines(model, [l + ' ' + v for l, v in zip(slines, out_s)], ['oracle'])[1]
+    marks_s += [''] * (len(slines) - len(marks_s))
+    seq_queries = sum(len(q) for q in seqs)
+    seq_bad, seq_inconsistent = [], 0
+    for c, q, v, mk in zip(seq_cases, seqs, out_s, marks_s):
+        first = {}
+        for k, pair in enumerate(q):
+            if first.setdefault(pair, v[k]) != v[k]:
+                seq_inconsistent += 1
+        if len(mk) != len(q) or '0' in mk:
+            seq_bad.append((c[0], c[1], q))
+
+    def seq_judge(rules, cats, queries):
+        if not queries:
+            return '', ''
+        l = seq_line(rules, cats, queries)
+        o = vlib.run_lines(impl, [l])[1]
+        v = o[0] if o and re.fullmatch('[01]{%d}' % len(queries), o[0]) else '?' * len(queries)
+        mk = vlib.run_lines(model, [l + ' ' + v], ['oracle'])[1]
+        return v, (mk[0] if mk else '')
+
+    if seq_bad and not falsified:
+        # the fixed-order pass found nothing: the failure needs a particular query history
+        rules, cats, queries = min(seq_bad, key=lambda f: (len(f[2]), len(f[0])))
+        bad = lambda r, cs, qs: '0' in seq_judge(r, cs, qs)[1]
+        queries = vlib.shrink_list(queries, lambda qs: bad(rules, cats, qs), max_steps=200)
+        used = sorted({ci for ci, _ in queries})
+        cats = [cats[ci] for ci in used]
+        queries = [(used.index(ci), ti) for ci, ti in queries]
+        rules = ''.join(vlib.shrink_list(split_pieces(rules), lambda ps: bad(''.join(ps), cats, queries), max_steps=120))
+        rules = ''.join(vlib.shrink_list(list(rules), lambda rs: bad(''.join(rs), cats, queries), max_steps=200))
+        for i in range(len(cats)):
+            cats[i] = ''.join(vlib.shrink_list(list(cats[i]), lambda cs: bad(rules, cats[:i] + [''.join(cs)] + cats[i + 1:], queries), max_steps=80))
+        v, mk = seq_judge(rules, cats, queries)
+        k = mk.index('0') if '0' in mk else len(queries) - 1
+        ci, ti = queries[k]
+        alone_v, alone_mk = seq_judge(rules, cats, [queries[k]])
+        kind = 'order_dependent' if alone_mk == '1' else 'verdict'
+        spec_seq = vlib.run_lines(model, [seq_line(rules, cats, queries)], ['spec'])[1]
+        chk.fail('one CategoryFilter(%r) object: query #%d (category %r, type %s) is answered %s after the earlier queries, %s on a fresh object; '
+                 'ordered rule evaluation prescribes %s' % (rules, k + 1, cats[ci], TYPES[ti], 'pass' if v[k] == '1' else 'drop',
+                                                           'pass' if alone_v == '1' else 'drop', 'drop' if v[k] == '1' else 'pass'),
+                 {'kind': kind, 'rules': rules, 'categories': cats, 'rules_hex_utf16': hx(rules),
+                  'query_sequence': [{'category': cats[a], 'type': TYPES[b], 'implementation': v[n], 'specified': (spec_seq[0][n] if spec_seq else '?')}
+                                     for n, (a, b) in enumerate(queries)],
+                  'queries': ['%d:%d' % q for q in queries], 'failing_query_index': k,
+                  'same_query_on_a_fresh_object': alone_v, 'histories_with_a_falsified_answer': len(seq_bad)}, kind=kind)
+    if rcs != 0:
+        chk.fail('implementation crashed while answering a query sequence', {'kind': 'crash', 'rc': rcs, 'stderr': err_s[-500:]}, kind='crash')
+
     # cross-check: Qt's QLoggingCategory on the subset of the rule language Qt itself supports
     qh = collections.Counter()
     qcases = [gen_qt_case(rng, qh) for _ in range(20000 if thorough else 2500)]
@@ -547,7 +619,10 @@ def run():
                             'non-trivial = distinct (rules, category) where at least one type is blocked' % (3 if thorough else 2),
                     'corpus_cases': n_corpus, 'fixed_cases': n_fixed,
                     'disagreements_model_vs_impl': len(dis_model), 'oracle_evaluated_on_impl_verdicts': evaluations,
-                    'oracle_falsified': len(falsified), 'verdict_vector_histogram': dict(vec_hist),
+                    'oracle_falsified': len(falsified),
+                    'query_sequences': {'filter_objects': len(seq_cases), 'queries': seq_queries, 'repeated_queries': seq_queries - sum(5 * len(c[1]) for c in seq_cases),
+                                        'objects_with_a_falsified_answer': len(seq_bad), 'answers_differing_from_the_first_answer_to_the_same_query': seq_inconsistent,
+                                        'rule': 'one CategoryFilter object per rule text; all (category, type) pairs in random order (chk.rng), ~35% asked again later; oracle on every answer'}, 'verdict_vector_histogram': dict(vec_hist),
                     'accepted_lines_per_text_histogram': dict(parsed_hist), 'matching_rules_per_evaluation_histogram': dict(match_hist),
                     'line_parser_branch_histogram': dict(line_hist),
                     'python_reference_vs_impl_differences': py_diff,
@@ -573,6 +648,14 @@ def replay(path):
     vlib.gen_src(['category'])
     model = vlib.build_model('category'); impl = vlib.build_harness('category')
     c = (rules, cats)
+    if r.get('queries'):
+        l = line_of(c) + ' ' + ','.join(r['queries'])
+        print('rules            %r' % rules)
+        print('categories       %r' % cats)
+        print('queries (category index:type index, types debug warning critical fatal info)', ' '.join(r['queries']))
+        print('implementation (one object, this order)  ', vlib.run_lines(impl, [l])[1])
+        print('model / specification (order-independent)', vlib.run_lines(model, [l])[1], vlib.run_lines(model, [l], ['spec'])[1])
+        return 0
     print('rules            %r' % rules)
     print('categories       %r' % cats)
     print('types            debug warning critical fatal info')
